@@ -9,7 +9,7 @@ SRCS = [os.path.join(REPO, "src/pdsh", f + ".c") for f in ("main", "dsh", "mod",
 
 
 class Real:
-    def __init__(self, ctx, san=False, tag="real", extra_mods=()):
+    def __init__(self, ctx, san=False, tag="real", extra_mods=(), null_exec=False):
         self.ctx = ctx
         d = os.path.join(ctx.scratch, tag)
         os.makedirs(os.path.join(d, "mods"), exist_ok=True)
@@ -27,7 +27,10 @@ class Real:
             raise vlib.BuildError("real pdsh build:\n" + out[-4000:])
         for link in ("pdcp", "rpdcp"):
             os.symlink("pdsh", os.path.join(d, "bin", link))
-        self.build_module(os.path.join(REPO, "src/modules/execcmd.c"), "execcmd")
+        if null_exec:
+            self.build_module(os.path.join(vlib.VERIF, "harness", "nullrcmd.c"), "execcmd")
+        else:
+            self.build_module(os.path.join(REPO, "src/modules/execcmd.c"), "execcmd")
         for src, name in extra_mods:
             self.build_module(src, name)
 
